@@ -218,6 +218,7 @@ static bool run_op(const std::vector<std::string>& w, Buf& c, Buf& t, long& dC, 
     if (!ch) t.add("inv"); else { TSIDE(W[h] = new Table()); t.add("ok"); }
   } else if (op == "free") {
     CSIDE(splinetable_free(ch)); c.add("void data=%s", H[h].data ? "set" : "null");
+    if (ch && H[h].data) H[h].data = nullptr;   // dangling: reported through data=set; do not touch the freed object below
     if (!ch) t.add("inv"); else { TSIDE(delete W[h]; W[h] = nullptr); t.add("ok data=null"); }
   } else if (op == "readfile") {
     const std::string& src = w[2];
@@ -393,8 +394,8 @@ static void warmup() {
   struct splinetable_buffer b; b.data = nullptr; b.size = 0; writesplinefitstable_mem(&b, &s); free(b.data);
   writesplinefitstable(FX.outC.c_str(), &s);
   int iv; double wv = 1.5; splinetable_read_key(&s, SPLINETABLE_INT, "INTKEY", &iv); splinetable_write_key(&s, SPLINETABLE_DOUBLE, "WARM", &wv);
-  splinetable_free(&s);
-  readsplinefitstable(FX.missing.c_str(), &s); readsplinefitstable(FX.garbage.c_str(), &s);
+  splinetable_free(&s); s.data = nullptr;   // (the warm-up must not depend on what it is there to help testing)
+  readsplinefitstable(FX.missing.c_str(), &s); s.data = nullptr; readsplinefitstable(FX.garbage.c_str(), &s); s.data = nullptr;
   splinetable_init(&s); Rng r(1); FitData f; make_fit(f, "good2", r);
   splinetable_glamfit(&s, &f.data, f.w.data(), f.cptr.data(), f.ord.data(), f.kptr.data(), f.nk.data(), f.smooth.data(), f.pord.data(), f.monodim, false);
   std::vector<const double*> cp = {f.coords[0].data(), f.coords[1].data()}; std::vector<uint32_t> nc = {2, 2}; struct ndsparse* res = nullptr;
